@@ -229,6 +229,54 @@ def r_band_keep(rep, f):
         rep.inconc("R-BAND-KEEP", "R-BAND-KEEP:floor", "only %d copied bandwidths found in matrix/ (expected >= 6)" % n)
 
 
+def r_data_raw_guard(rep, f):
+    """element-wise arithmetic on a matrix's raw `data` is valid only when the data ARE the entries: every loop / map in
+    matrix/{add,sub,mul}.rs that updates data element by element sits in a match arm (or under a test) that pins the storage
+    to Full or Banded. For Identity storage the data are a tag, not entries: subtracting them leaves an `Identity` that is
+    really the zero matrix."""
+    n = 0
+    STO = MAT + "Storage"
+    for b in matrix_fns(f):
+        fn = b["def"]
+        if not any(x in fn for x in ("::add::", "::sub::", "::mul::")):
+            continue
+        sites = []
+        for lp, parents in tast.find_with_parents(b["body"], lambda z: z.get("k") == "For"):
+            it = lp["iter"]
+            on_data = tast.contains(it, lambda q: (q.get("k") == "Field" and (q.get("fdef") or "") == MAT + "::data") or
+                                    (q.get("k") == "Path" and q.get("res") == "local" and "Vec<f64>" in (q.get("ty") or "")))
+            mut = tast.contains(it, lambda q: (q.get("k") == "MethodCall" and q.get("name") == "iter_mut") or (q.get("k") == "AddrOf" and q.get("mut")))
+            writes = tast.contains(lp["body"], lambda q: q.get("k") in ("AssignOp", "Assign") and q["l"].get("k") == "Unary" and q["l"].get("op") == "Deref")
+            if on_data and mut and writes:
+                sites.append((lp, parents))
+        for mp, parents in tast.find_with_parents(b["body"], lambda z: z.get("k") == "MethodCall" and z.get("name") == "map" and tast.contains(z["recv"], lambda q: q.get("k") == "Field" and (q.get("fdef") or "") == MAT + "::data")):
+            sites.append((mp, parents))
+        for node, parents in sites:
+            n += 1
+            key = "R-DATA-RAW:%s:%d" % (fn.replace("matrix::", ""), n)
+            pinned = False
+            for a in parents:
+                if a.get("k") == "Match":
+                    for arm in a["arms"]:
+                        if tast.contains(arm["body"], lambda z: z is node):
+                            pats = tast.find(arm["pat"], lambda q: (q.get("def") or q.get("ctor_of") or "").startswith(STO + "::") or (q.get("k") in ("PStruct", "PPath", "PTupleStruct") and "MatrixStorage::" in (q.get("def") or "")))
+                            names = {(q.get("def") or q.get("ctor_of") or "").split("::")[-1] for q in pats}
+                            if names and "Identity" not in names and names <= {"Full", "Banded"}:
+                                pinned = True
+                if a.get("k") == "If" and tast.contains(a["then"], lambda z: z is node):
+                    c = a["cond"]
+                    if tast.contains(c, lambda q: (q.get("def") or "").endswith("MatrixStorage::Full") or (q.get("def") or "").endswith("MatrixStorage::Banded")) and \
+                            not tast.contains(c, lambda q: (q.get("def") or "").endswith("MatrixStorage::Identity")):
+                        pinned = True
+            if pinned:
+                rep.ok("R-DATA-RAW", key, "raw data arithmetic under a Full/Banded storage pattern")
+            else:
+                rep.violation("R-DATA-RAW", key, "`%s` updates the raw data element by element without pinning the storage to Full or Banded: for Identity storage the data are not the entries "
+                              "(the result keeps the Identity tag whatever the arithmetic did)" % tast.render(node)[:70], node.get("sp"))
+    if n < 5:
+        rep.inconc("R-DATA-RAW", "R-DATA-RAW:floor", "only %d element-wise raw-data sites found in add/sub/mul (expected >= 5)" % n)
+
+
 def _banded_shape(got, n, m):
     """got == (a + b + 1) * n for two atoms a, b (the bound bandwidths), identifying m with n"""
     if not isinstance(got, Poly):
@@ -556,6 +604,8 @@ def run(rep, tier):
     r_band_densify(rep, f)
     r_idx_diverge(rep, f)
     r_macro_paths(rep, f)
+    rep.rule("R-DATA-RAW", "element-wise arithmetic on raw matrix data happens only under a Full/Banded storage pattern (never for Identity, whose data are a tag)")
+    r_data_raw_guard(rep, f)
     rep.rule("R-BAND-KEEP", "a Banded storage descriptor built from an operand's (ml, mu) keeps ml as ml and mu as mu (directly or through an inlined Matrix constructor)")
     r_band_keep(rep, f)
     r_macro_witness(rep, f)
